@@ -22,8 +22,9 @@ def seed():
 
 
 class Finding:
-    def __init__(self, prop, sig, text):
+    def __init__(self, prop, sig, text, detail_re=None):
         self.prop, self.sig, self.text = prop, sig, text
+        self.detail_re = re.compile(detail_re) if detail_re else None
         self.hits = 0
 
 
@@ -35,9 +36,9 @@ def load_findings(path=FINDINGS_FILE):
         line = line.strip()
         if not line or line.startswith("#"):
             continue
-        m = re.match(r"finding:\s+property=(\S+)\s+sig=(\S+)\s*::\s*(.*)$", line)
+        m = re.match(r"finding:\s+property=(\S+)\s+sig=(\S+)(?:\s+detail~/(.*?)/)?\s*::\s*(.*)$", line)
         if m:
-            out.append(Finding(m.group(1), m.group(2), m.group(3)))
+            out.append(Finding(m.group(1), m.group(2), m.group(4), m.group(3)))
     return out
 
 
@@ -60,7 +61,9 @@ class Report:
             except OSError:
                 pass
         self.findings = [f for f in load_findings() if f.prop == prop]
-        self.by_sig = {f.sig: f for f in self.findings}
+        self.by_sig = {}
+        for f in self.findings:
+            self.by_sig.setdefault(f.sig, []).append(f)
         self.new = []
         self.known_hits = {}
         self.coverage = {}
@@ -98,10 +101,11 @@ class Report:
     def violation(self, clause, features, detail, case):
         sigs = [clause] + [f"{clause}|{ft}" for ft in sorted(features or [])]
         for s in sigs:
-            f = self.by_sig.get(s)
-            if f is not None:
-                f.hits += 1
-                return "known"
+            for f in self.by_sig.get(s, ()):
+                # an optional detail~/regex/ narrows a finding to the failure it was recorded for
+                if f.detail_re is None or f.detail_re.search(str(detail)):
+                    f.hits += 1
+                    return "known"
         self.new.append({"clause": clause, "features": sorted(features or []), "detail": str(detail)[:2000], "case": case})
         return "new"
 
